@@ -5,6 +5,7 @@ package main
 
 import (
 	"fmt"
+	"go/constant"
 	"strings"
 
 	"golang.org/x/tools/go/ssa"
@@ -57,6 +58,8 @@ func checkC20(c *Check) {
 	c.capturedVarDiscipline("C20.3 every-listener-served")
 	c.configuredHoldTimeProvenance("C20.4 options-per-call")
 	c.optionSettersVerbatim("C20.4 option-setters")
+	c.inboundLookup("C20.2 lookup-key", "C20.1 one-mutex")
+	c.passiveNeverDials("C20.5 passive-never-dials")
 	isExists := func(e *Expr) bool {
 		return e.Op == "ex" && len(e.Args) == 2 && e.Args[0].Op == "val" && isBoolType(e.Typ)
 	}
@@ -345,15 +348,7 @@ func checkC20(c *Check) {
 		}
 		c.require(ok, "C20.4 options-accept-set", s.fn, "value stored unmodified", p.Pos(outer.Pos()), "the option stores the caller's value without narrowing, so validation sees what the user passed")
 	}
-	c.runCases("C20.4 router-id", "NewServer", []asmCase{
-		{name: "router id not IPv4 => rejected", hook: rangeHook(func(e *Expr) bool { return isCallNamed(e, "netip.Addr.Is4") }, isConst(0)), forbid: forbidAccept},
-		{name: "router id IPv4 => accepted", hook: rangeHook(func(e *Expr) bool { return isCallNamed(e, "netip.Addr.Is4") }, isConst(1)), forbid: func(rs retSite) string {
-			if !isAccept(rs) {
-				return "rejected"
-			}
-			return ""
-		}},
-	})
+	c.routerIDAccepted("C20.4 router-id")
 }
 
 // isFreeVal: the term is a captured variable (directly or through its cell).
@@ -416,6 +411,59 @@ func (c *Check) serveShutdown(rule string) {
 	}
 	c.require(okD, rule, "Server.Serve", "deferred shutdown atomic", p.Pos(fn.Pos()),
 		"the deferred shutdown stops every peer (synchronously), clears serving and closes doneServingCh inside one critical section, so no AddPeer can start a peer that is never stopped")
+	// the flag means "the registered peers are running": every write of it, in
+	// any function, happens in a critical section that also starts (true) or
+	// stops (false) every registered peer -- AddPeer and DeletePeer decide by it
+	// whether a peer must be started or stopped
+	nw := 0
+	for _, g := range p.FuncSeq {
+		h := map[ssa.Instruction]bool(nil)
+		allInstrs(g, func(in ssa.Instruction) {
+			st, ok := in.(*ssa.Store)
+			if !ok {
+				return
+			}
+			fa, ok := st.Addr.(*ssa.FieldAddr)
+			if !ok || structFieldName(fa) != "serving" || structNameOfPtr(fa.X.Type()) != "Server" {
+				return
+			}
+			if acc := (Access{Fn: g, Instr: st, Write: true}); isFreshWrite(acc) || p.isFreshViaParam(acc) {
+				return // constructor initialising an unpublished Server
+			}
+			nw++
+			if h == nil {
+				h = p.lockHeld(g, "mu")
+			}
+			val, isC := st.Val.(*ssa.Const)
+			okW := isC && val.Value != nil && h[st]
+			if okW {
+				want := "peer.stop"
+				if constant.BoolVal(val.Value) {
+					want = "peer.start"
+				}
+				paired := false
+				for _, cl := range p.callsIn(g, descIs(want)) {
+					ci := cl.(ssa.Instruction)
+					if _, isGo := cl.(*ssa.Go); isGo || !h[ci] || !inLoop(ci.Block()) {
+						continue
+					}
+					isUnlock := func(x ssa.Instruction) bool {
+						cc, ok := x.(ssa.CallInstruction)
+						return ok && p.calleeDesc(cc) == "sync.Mutex.Unlock"
+					}
+					fwd := pathSearch(g, st, func(x ssa.Instruction) bool { return x == ci }, isUnlock)
+					bwd := pathSearch(g, ci, func(x ssa.Instruction) bool { return x == ssa.Instruction(st) }, isUnlock)
+					if fwd != nil || bwd != nil {
+						paired = true
+					}
+				}
+				okW = paired
+			}
+			c.require(okW, rule, p.Name(g), "write of Server.serving", p.InstrPos(st),
+				"the serving flag is written only in a critical section that also starts (true) or stops (false) every registered peer; AddPeer/DeletePeer start/stop a peer exactly when the flag says the others are running")
+		})
+	}
+	c.floor(rule, nw, 2, "writes of Server.serving")
 }
 
 // peerConfigVerbatim: the registry is keyed by the configured remote address
@@ -532,4 +580,18 @@ func (c *Check) optionSettersVerbatim(rule string) {
 		}
 	}
 	c.floor(rule, n, 6, "PeerOption constructors")
+}
+
+// routerIDAccepted: NewServer accepts exactly IPv4 router ids (the 32-bit BGP
+// Identifier of every OPEN is read from the address's 4-octet form).
+func (c *Check) routerIDAccepted(rule string) {
+	c.runCases(rule, "NewServer", []asmCase{
+		{name: "router id not IPv4 => rejected", hook: rangeHook(func(e *Expr) bool { return isCallNamed(e, "netip.Addr.Is4") }, isConst(0)), forbid: forbidAccept},
+		{name: "router id IPv4 => accepted", hook: rangeHook(func(e *Expr) bool { return isCallNamed(e, "netip.Addr.Is4") }, isConst(1)), forbid: func(rs retSite) string {
+			if !isAccept(rs) {
+				return "rejected"
+			}
+			return ""
+		}},
+	})
 }
